@@ -338,7 +338,7 @@ Lemma lift_gather (tfs : list N) (R : list N) :
   map f32_of_Z (map Z.of_N (map (fun r => nth (N.to_nat r) tfs 0) R))
   = map (fun r => nth (N.to_nat r) (map f32_of_Z (map Z.of_N tfs)) (f32_of_Z 0)) R.
 Proof.
-  rewrite !map_map. apply map_ext. intro r. symmetry.
+  induction R as [|r R IH]; [reflexivity|]. cbn [map]. rewrite IH. f_equal.
   change (f32_of_Z 0) with (f32_of_Z (Z.of_N 0)). rewrite (map_nth f32_of_Z), (map_nth Z.of_N). reflexivity.
 Qed.
 
@@ -356,7 +356,7 @@ Proof.
   destruct (is_zero32 _).
   - rewrite !map_map. apply map_ext_in. intros r Hr. rewrite Forall_forall in F. specialize (F r Hr).
     symmetry. rewrite (nth_map_in _ X _ (f32_of_Z 0) 0%Z) by lia. reflexivity.
-  - rewrite !(map_map _ bits_of_b32). apply rowwise_gather; [lia|]. rewrite LX. exact F.
+  - rewrite !map_map. apply rowwise_gather; [lia|]. rewrite LX. exact F.
 Qed.
 
 Lemma tf_spec_length docs t : length (tf_spec docs t) = length docs.
